@@ -49,6 +49,14 @@ PROPS = {
         "design_ref": "DESIGN.md section 7, C09",
         "assumptions": ["scalars are exact real numbers"],
     },
+    "C08": {
+        "claimed": True,
+        "technique": "Coq proof (field/lra/nra over R, tan>0 on (0,pi/2)) over programs translated from the compiled code, debug assertions as panic leaves",
+        "level_text": "all 21 projection constructors x 2 layouts are translated (178 control-flow paths incl. every debug_assert) and proved, for ALL plane values with l!=r, b!=t, 0<n<f (off-centre volumes included), ALL fields of view in (0,pi), aspects and sizes: the eight view-volume corners go to x,y=-1/+1, near to depth 0 (zo) / -1 (no), far to 1, with w>0 in front; perspective = frustum of the implied symmetric planes; perspective_fov = perspective(width/height); every left-handed variant = right-handed one composed with a z mirror; infinite perspective: near -> -1, depth strictly increasing and below 1-epsilon. The off-centre frustum_lh sign defect of the pinned tree made C08_planes and C08_handedness fail and was repaired by a fix: commit. No unit test reaches a projection constructor.",
+        "level_note": "Trusted: Coq kernel; stdlib real-number axioms as printed; symx translator (self-checked each run); Rust parametricity. tan/sin/cos are the real functions; float rounding not modelled; hypotheses 0<fov<pi (the code asserts only 0<fov<2pi).",
+        "design_ref": "DESIGN.md section 7, C08",
+        "assumptions": ["scalars are exact real numbers", "documented preconditions: l!=r, b!=t, 0<near<far, 0<fov<pi, aspect>0"],
+    },
 }
 
 for _k in PROPS: PROPS[_k].setdefault("selfcheck", {"quick": 200, "thorough": 5000})
